@@ -198,7 +198,7 @@ def run(ctx):
             add(c.dec_line(e), c.dec_real(e), ("dec", c.enc))
             valid[c.enc].append((c, e, t))
         why = oracle_roundtrip(c, t)
-        if why and oracle_fail < 25:
+        if why and oracle_fail < 6:
             oracle_fail += 1
             ctx.violation("%s-roundtrip:type=%d:flags=%#x" % (c.enc, t[0], t[1]), "PRUDP %s round trip fails on the real code: %s" % (c.enc, why),
                           {"codec": c.ident(), "packet": dict(zip(FIELDS, [x.hex() if isinstance(x, bytes) else x for x in t])), "why": why,
@@ -409,7 +409,7 @@ def run(ctx):
             add("optdec " + hx(e), res_opts(back), ("optdec", "opt"))
             if isinstance(back, Exception) or list(back.items()) != list(d.items()):
                 ctx.violation("options-roundtrip:keys=%s" % list(d), "decode_options(encode_options(d)) != d on the real code",
-                              {"options": {str(k): (v.hex() if isinstance(v, bytes) else v) for k, v in d.items()}, "decoded": repr(back)})
+                              {"options": {str(k): (v.hex() if isinstance(v, bytes) else v) for k, v in d.items()}, "decoded": res_opts(back)})
             # every truncation, a duplicate of every entry, every length byte perturbed, an unknown type
             for k in range(len(e)):
                 add("optdec " + hx(e[:k]), res_opts(safe(prudp.decode_options, e[:k])), ("optdec-trunc", "opt"))
@@ -481,11 +481,12 @@ def run(ctx):
                     ctx.violation("selector-roundtrip:transport=%d:version=%d:%s" % (tr, ver, which),
                                   "PRUDPMessageSelector.decode(encode(p)) != [p] on the real code",
                                   {"transport": tr, "version": ver, "codec": {"sv": sv, "cv": cv, "fv": fv, "key": key},
-                                   "packet": dict(zip(FIELDS, [x.hex() if isinstance(x, bytes) else x for x in t])), "result": repr(r)[:300]})
+                                   "packet": dict(zip(FIELDS, [x.hex() if isinstance(x, bytes) else x for x in t])), "result": res_dec(r)[:300]})
 
     # ---- run the model, diff -----------------------------------------------------------------------------
     outs = drv.batch(lines)
     diffs = []
+    class_diffs = 0
     sample_every = max(1, len(lines) // 6)
     for idx, (line, real, model, m) in enumerate(zip(lines, reals, outs, meta)):
         words = model.split(" ", 2)
@@ -494,10 +495,16 @@ def run(ctx):
         ctx.case(key=hash(line), nontrivial=nontrivial, tag="%s:%s:%s" % (m[1], m[0], cls),
                  sample={"op": line[:160], "model": model[:160], "real": real[:160]} if idx % sample_every == 0 else None)
         if real != model:
-            diffs.append((line, real, model, m))
+            # which exception class a rejected input raises is not part of C03 (C07 only needs `except Exception`): a
+            # difference in the class alone is counted, not reported
+            if real.startswith("err ") and model.startswith("err ") and real.split(" ")[2:] == model.split(" ")[2:]:
+                class_diffs += 1
+            else:
+                diffs.append((line, real, model, m))
     ctx.traces_validated = len(lines)
     ctx.extra["correspondence_lines"] = len(lines)
     ctx.extra["correspondence_diffs"] = len(diffs)
+    ctx.extra["exception_class_only_diffs"] = class_diffs
     ctx.extra["wellformed_packets"] = len(wf)
     ctx.extra["codecs"] = len(codecs)
     # wf lines that differ: the generator produced a packet outside the theorem's hypothesis -> harness bug, or the model's WF
